@@ -156,6 +156,26 @@ def frame_orders(maxframes, allows=(False, True), reader="cursor"):
                     yield case_line(reader, allow, riff(body)), "frame-orders-%d" % n
 
 
+def empty_trailers(allows=(False, True), reader="cursor"):
+    """zero-length chunks in every place a chunk can follow: after a still image, after the last animation frame, inside a frame
+    after its image - as the very last bytes of the container and followed by another chunk"""
+    fr = chunk(b"ANMF", anmf_payload(mk(b"VP8 "), w=2, h=3))
+    for name in NAMES:
+        z = chunk(name, b"")
+        for f in (0, EXIF, XMP, EXIF | XMP, ICCP):
+            bodies = [mk(b"VP8X", flags=f | ANIM) + mk(b"ANIM") + fr + z,
+                      mk(b"VP8X", flags=f | ANIM) + mk(b"ANIM") + fr + fr + z,
+                      mk(b"VP8X", flags=f | ANIM) + mk(b"ANIM") + fr + z + mk(b"UNKN"),
+                      mk(b"VP8X", flags=f | ANIM) + mk(b"ANIM") + chunk(b"ANMF", anmf_payload(mk(b"VP8 ") + z, w=2, h=3)),
+                      mk(b"VP8X", flags=f) + mk(b"VP8 ") + z,
+                      mk(b"VP8X", flags=f) + mk(b"VP8 ") + z + z]
+            if f == 0:
+                bodies += [mk(b"VP8 ") + z, mk(b"VP8L") + z]
+            for body in bodies:
+                for allow in allows:
+                    yield case_line(reader, allow, riff(body)), "empty-trailers"
+
+
 def valid_files(rng=None):
     """a set of valid files of every shape (used as seeds for mutation/truncation)"""
     out = []
